@@ -112,6 +112,8 @@ def run(res):
                                       {"case": "rung|%s|%d|%d|unsafe|%d|3|10000|%s|%s" % (who, H[i].w, level, m, P.hexs(H[i].src), H[i].env),
                                        "src": H[i].src, "canonical": H[i].canon, "reach": r, "profile": "debug"})
     stats["protocol"] = unchecked_protocol(res, rng, driver, hv, 400 if res.tier == "quick" else 10000)
+    from .. import forms
+    stats["jit_unchecked_code"] = forms.run_jit_programs(res, H[:: (3 if res.tier == "quick" else 1)], [0, 2], safe=False)
     for backend, levels in BACKENDS:
         for level in levels:
             for guard in (2, 3):
@@ -142,7 +144,7 @@ def run(res):
         "samples": [dict(c.to_json(), margin=c.meta["margin"]) for c in H[:: max(1, len(H) // 6)]][:6],
         "stats": stats, "distribution": P.distribution(H), "backends": BACKENDS,
     })
-    res.coverage["theorems"] = ["C10_unchecked_safe", "C11_cells_in_window"]
+    res.coverage["theorems"] = ["C10_unchecked_safe", "C10_jit_unchecked_move", "C11_cells_in_window"]
     res.assumptions += ["first exercise of execute_unsafe anywhere (the suite has none)",
                         "memory protocol: theorem C10_unchecked_safe proves that after make_accessible(-m, m+1) any sequence of unprobed moves and raw accesses that stays on cells of [-m, m] never leaves the buffer and reads the last value written; its hypothesis is validated per program and level (stats.reach_checked): pointer excursion of the bytecode model run plus the declared window (operands are inside it by the certified checker, C11) lies inside the region; the model is tied to runtime::Memory by stats.protocol; event equality with the canonical run is per-program validation (C02/C03)"]
     if broken and not res.violations:
